@@ -69,7 +69,11 @@ type node struct {
 	// FocusOn "t:<id>" / "b:<id>": on a key or custom event in the target /
 	// bubble phase the widget returns FocusWidgetCmd(widget id) (without consuming)
 	FocusOn string `json:"focus_on,omitempty"`
-	Kids    []node `json:"kids,omitempty"`
+	// Grow: id of a child that is hidden until this widget is entered by the
+	// pointer; the enter handler then shows it and returns RedrawCmd (a popup
+	// that grows an entry when hovered)
+	Grow int    `json:"shows_child_on_mouse_enter,omitempty"`
+	Kids []node `json:"kids,omitempty"`
 }
 
 type op struct {
@@ -219,6 +223,18 @@ func (t *tw) handle(ev vaxis.Event, phase string) (vxfw.Command, error) {
 	if t.consumes(name, phase) {
 		return vxfw.ConsumeEventCmd{}, nil
 	}
+	if name == "enter" && t.n.Grow > 0 {
+		t.wd.mu.Lock()
+		hidden := t.wd.dropped[t.n.Grow]
+		if hidden {
+			t.wd.dropped[t.n.Grow] = false
+			t.wd.rfAt = append(t.wd.rfAt, t.wd.draws)
+		}
+		t.wd.mu.Unlock()
+		if hidden {
+			return vxfw.RedrawCmd{}, nil
+		}
+	}
 	if name == "focus-in" && strings.Contains(t.n.Consume, "rf") {
 		// a widget that repaints itself when it gets the focus
 		t.wd.mu.Lock()
@@ -324,6 +340,9 @@ func focusOn(n *node, ev, phase string) (int, bool) {
 
 func (wd *world) build(n *node) {
 	wd.nodes[n.ID] = n
+	if n.Grow > 0 {
+		wd.dropped[n.Grow] = true
+	}
 	for i := range n.Kids {
 		wd.parent[n.Kids[i].ID] = n.ID
 	}
@@ -357,6 +376,9 @@ type model struct {
 func (m *model) index(n *node, parent int) {
 	m.nodes[n.ID] = n
 	m.parent[n.ID] = parent
+	if n.Grow > 0 {
+		m.dropped[n.Grow] = true
+	}
 	for i := range n.Kids {
 		m.index(&n.Kids[i], n.ID)
 	}
@@ -833,6 +855,22 @@ func runHistory(w *harness.W, c hcase, sample bool) {
 				}
 			}
 		}
+		// widgets that showed a hidden child when they were entered (the
+		// model follows what the log says about enters; that the right
+		// widgets are entered is judged by the entered-set rule)
+		var toggles []int
+		for _, g := range got {
+			if n := m.nodes[g.W]; g.Ev == "enter" && n != nil && n.Grow > 0 && m.dropped[n.Grow] {
+				toggles = append(toggles, n.Grow)
+			}
+		}
+		applyToggles := func() {
+			for _, id := range toggles {
+				m.dropped[id] = false
+				w.Count("children_shown_by_a_hover_handler", 1)
+			}
+			toggles = nil
+		}
 		switch o.Kind {
 		case "mouse":
 			var chain []int
@@ -852,6 +890,15 @@ func runHistory(w *harness.W, c hcase, sample bool) {
 				if len(tolerated) > 0 {
 					w.Count("mouse_events_over_overlapping_siblings", 1)
 				}
+			}
+			if len(toggles) > 0 {
+				// the event was routed through the layout before the handler
+				// changed it; the frame the handler asked for has been drawn
+				// since, and the pointer rests on the new layout
+				applyToggles()
+				all = map[int]bool{}
+				var after []int
+				m.under(&c.Tree, o.Col, o.Row, &after, all, true)
 			}
 			// entered set: exactly the widgets under the pointer
 			for id := range m.nodes {
@@ -882,7 +929,21 @@ func runHistory(w *harness.W, c hcase, sample bool) {
 				}
 			}
 		}
-		if o.Kind == "relayout" || needFrame || rfFramed {
+		applyToggles()
+		if (o.Kind == "mouse" || o.Kind == "term-focus-in" || o.Kind == "term-focus-out") && rfFramed && !m.inTree(m.focused) {
+			// a hover handler asked for a frame, and in that frame the
+			// focus fell back to the root (the focused widget is not drawn):
+			// not part of the routing of the mouse event
+			var keep []entry
+			for _, g := range routed {
+				if g.Ev != "focus-out" && g.Ev != "focus-in" {
+					keep = append(keep, g)
+				}
+			}
+			routed = keep
+			m.focused = rootID
+		}
+		if o.Kind == "relayout" || needFrame || (rfFramed && o.Kind == "cmd") {
 			// after a frame the focus falls back to the root when the
 			// focused widget is no longer drawn
 			if !m.inTree(m.focused) {
@@ -989,6 +1050,22 @@ func genTree(r gen.R, cols, rows int, overlap bool) node {
 				n.Kids = append(n.Kids, c)
 			}
 		}
+		if len(n.Kids) > 0 && r.Intn(5) == 0 {
+			k := &n.Kids[r.Intn(len(n.Kids))]
+			// one level only: nothing inside the hidden child shows further
+			// children (what a handler changes inside a frame is seen by the
+			// hover bookkeeping only at the next mouse event)
+			var clear func(x *node)
+			clear = func(x *node) {
+				x.Grow = 0
+				for i := range x.Kids {
+					clear(&x.Kids[i])
+				}
+			}
+			clear(k)
+			n.Grow = k.ID
+			n.Consume = strings.TrimSpace(strings.ReplaceAll(n.Consume, "he", ""))
+		}
 		return n
 	}
 	root := mk(0, cols-r.Intn(3), rows-r.Intn(2))
@@ -1003,13 +1080,37 @@ func ids(n *node, out *[]int) {
 	}
 }
 
+// growSites lists, for every widget that shows a hidden child when entered,
+// the widget and the absolute top-left cell of that child.
+func growSites(n *node, ox, oy int, out *[][3]int) {
+	for i := range n.Kids {
+		k := &n.Kids[i]
+		if n.Grow == k.ID && n.ID != 0 {
+			*out = append(*out, [3]int{n.ID, ox + k.Col, oy + k.Row})
+		}
+		growSites(k, ox+k.Col, oy+k.Row, out)
+	}
+}
+
 func genOps(r gen.R, c *hcase, n int) {
 	var all []int
 	ids(&c.Tree, &all)
 	if c.AppRoot != nil {
 		all = append(all, appRootID)
 	}
+	var sites [][3]int
+	growSites(&c.Tree, 0, 0, &sites)
 	for i := 0; i < n; i++ {
+		if len(sites) > 0 && i > 0 && i%13 == 5 {
+			// a popup that appears under the resting pointer: it is hidden,
+			// the pointer comes to rest where its hidden child will be, the
+			// popup comes back (it is entered during that frame, shows its
+			// child and asks for a redraw), then the button is pressed
+			st := sites[r.Intn(len(sites))]
+			if st[1] >= 0 && st[2] >= 0 {
+				c.Ops = append(c.Ops, op{Kind: "relayout", ID: st[0]}, op{Kind: "mouse", Col: st[1], Row: st[2], Mouse: "motion"}, op{Kind: "relayout", ID: st[0]}, op{Kind: "mouse", Col: st[1], Row: st[2], Mouse: "press"})
+			}
+		}
 		switch k := r.Intn(20); {
 		case k < 4:
 			c.Ops = append(c.Ops, op{Kind: "key"})
